@@ -56,6 +56,14 @@ def gen_cases(tier, seed):
     for c in mapcases.nasty_quick_cases(rng, n_stale):
         c['marker_class'] = 'stale'
         cases.append(c)
+    # validator-accepted oddity: a childless internal node
+    n_odd = 4 if tier == 'quick' else 30
+    for c in mapcases.random_large_cases(rng, n_odd, max_leaves=10,
+                                         max_cells=12):
+        c['n_levels'] = max(2, c['n_levels'])
+        c['childless_node'] = True
+        c.pop('flatten', None)
+        cases.append(c)
     for c in cases:
         c['order_seed'] = int(rng.integers(0, 2 ** 31))
     return cases
@@ -75,6 +83,10 @@ def _classify(w, r):
         cls.append('single-top-node')
     if w.spec['marker_class'] == 'stale':
         cls.append('stale-marker-list')
+    if any(len(m.children(lv, n)) == 0 for lv in m.hierarchy[:-1]
+           for n in m.nodes[lv]):
+        # this oddity is its own mechanism whatever else is true
+        cls = ['childless-internal-node']
     return f"C01:exception[{','.join(cls)}]:{sig}", last
 
 
